@@ -40,13 +40,18 @@ Hosts(w) == 1 .. Len(w.dc)
 \* up      : hosts whose state is UP
 State0(w) == [members |-> <<>>, lists |-> [t \in 0 .. 2 |-> <<>>], up |-> Hosts(w), npicks |-> 0,
               partset |-> FALSE, ksknown |-> FALSE, ks2known |-> FALSE]
-SeqAdd(s, h) == IF h \in RangeOf(s) THEN s ELSE Append(s, h)
+\* w.addr[h]: the address of host h.  A host whose address is already listed under ANOTHER host id (a node
+\* replaced at the same address: new host id, new tokens) takes the place of the listed one.
+SeqAddA(w, s, h) ==
+  IF h \in RangeOf(s) THEN s
+  ELSE LET same == {k \in 1 .. Len(s) : w.addr[s[k]] = w.addr[h]} IN
+       IF same = {} THEN Append(s, h) ELSE [s EXCEPT ![CHOOSE k \in same : TRUE] = h]
 SeqDel(s, h) == SelectSeq(s, LAMBDA x : x # h)
 
 Apply(w, s, e) ==
-  CASE e.op = "add"     -> [s EXCEPT !.members = SeqAdd(@, e.h), !.lists[Tier(w, e.h)] = SeqAdd(@, e.h)]
+  CASE e.op = "add"     -> [s EXCEPT !.members = SeqAddA(w, @, e.h), !.lists[Tier(w, e.h)] = SeqAddA(w, @, e.h)]
     [] e.op = "remove"  -> [s EXCEPT !.members = SeqDel(@, e.h), !.lists[Tier(w, e.h)] = SeqDel(@, e.h)]
-    [] e.op = "up"      -> [s EXCEPT !.up = @ \cup {e.h}, !.lists[Tier(w, e.h)] = SeqAdd(@, e.h)]
+    [] e.op = "up"      -> [s EXCEPT !.up = @ \cup {e.h}, !.lists[Tier(w, e.h)] = SeqAddA(w, @, e.h)]
     [] e.op = "down"    -> [s EXCEPT !.up = @ \ {e.h}, !.lists[Tier(w, e.h)] = SeqDel(@, e.h)]
     [] e.op = "sdown"   -> [s EXCEPT !.up = @ \ {e.h}]
     [] e.op = "setpart" -> [s EXCEPT !.partset = TRUE]
